@@ -400,6 +400,9 @@ func genCutsFaults(r *rng, nfiles int, maxLen int, stride int) CaseSet {
 			pool = append(pool, append(append([]byte{}, a...), b...))
 		}
 	}
+	// files whose trailing CRC (and, for some, header CRC) has a zero byte or is zero altogether: a
+	// check that tolerates a partly missing CRC can only go wrong on such values
+	pool = append(pool, specialCrcFiles(r)...)
 	k := r.intn(stride)
 	for _, f := range pool {
 		for cut := 0; cut <= len(f); cut++ {
@@ -418,6 +421,39 @@ func genCutsFaults(r *rng, nfiles int, maxLen int, stride int) CaseSet {
 		}
 	}
 	return cs
+}
+
+// specialCrcFiles: small valid files, a free 16-bit value of which was searched so that the file CRC
+// is 0x00xx, 0xxx00, 0x0000 or 0xFFFF (both header sizes).
+func specialCrcFiles(r *rng) [][]byte {
+	var out [][]byte
+	want := []func(c uint16) bool{
+		func(c uint16) bool { return c>>8 == 0 && c != 0 },
+		func(c uint16) bool { return c&0xFF == 0 && c != 0 },
+		func(c uint16) bool { return c == 0 },
+		func(c uint16) bool { return c == 0xFFFF },
+	}
+	for i, ok := range want {
+		fo := defaultFrame()
+		if i%2 == 1 {
+			fo.hdrSize = 12
+		}
+		arch := byte(r.intn(2))
+		hr := byte(60 + r.intn(100))
+		for v := 0; v < 65536; v++ {
+			w := &sw{}
+			w.Write(fileIdRecs(4, arch))
+			w.define(defn{local: 1, arch: 0, global: 20, fields: []fdef{{3, 1, 2}, {7, 2, 0x84}}})
+			w.data(1, []byte{hr, byte(v), byte(v >> 8)})
+			f := frame(w.Bytes(), fo)
+			c := uint16(f[len(f)-2]) | uint16(f[len(f)-1])<<8
+			if ok(c) {
+				out = append(out, f)
+				break
+			}
+		}
+	}
+	return out
 }
 
 // ---- C03: routing ----
